@@ -9,8 +9,12 @@ C13 — admission QoS/priority protocol and tier translation.  Model of
         shouldSkipProfile, doMutateByColocationProfile (QoS/priority fields only), mutatePodResourceSpec,
         replaceAndEraseResource, restrictResourceRequestAndLimit
   pkg/webhook/pod/mutating/extended_resource_spec.go         mutateByExtendedResources
+  k8s.io/component-helpers/resource PodRequests (sidecar init containers, pod-level resources, overhead;
+        presence-aware, so that zero and negative entries behave as in Go)
+  k8s.io/kubectl/pkg/util/qos ComputePodQOS (only "is BestEffort", incl. the pod-level branch)
 A `resource.Quantity` is the integer number of nano-units it denotes (Quantity has no finer
-precision); `MilliValue`/`Value` round up.  Core-only.
+precision); `MilliValue`/`Value` round away from zero.  Label values are byte strings (`LStr`).
+Core-only.
 -/
 namespace KoordVerif.C13
 
@@ -25,6 +29,43 @@ inductive Res | cpu | memory | batchCPU | batchMemory | midCPU | midMemory | oth
 deriving DecidableEq, Repr
 
 def Res.all : List Res := [.cpu, .memory, .batchCPU, .batchMemory, .midCPU, .midMemory, .other]
+
+/-- a label value / class name: the bytes of the Go string. -/
+abbrev LStr := List Nat
+
+/-- qos.go: the values of the QoSClass constants ("LSE", "LSR", "LS", "BE", "SYSTEM", ""). -/
+def qosName : QoS → LStr
+  | .lse => [76, 83, 69] | .lsr => [76, 83, 82] | .ls => [76, 83] | .be => [66, 69]
+  | .system => [83, 89, 83, 84, 69, 77] | .none => []
+
+/-- priority.go: the values of the PriorityClass constants ("koord-prod", "koord-mid", "koord-batch", "koord-free", ""). -/
+def pcName : PC → LStr
+  | .prod => [107, 111, 111, 114, 100, 45, 112, 114, 111, 100]
+  | .mid => [107, 111, 111, 114, 100, 45, 109, 105, 100]
+  | .batch => [107, 111, 111, 114, 100, 45, 98, 97, 116, 99, 104]
+  | .free => [107, 111, 111, 114, 100, 45, 102, 114, 101, 101]
+  | .none => []
+
+/-- qos.go GetPodQoSClassByName -/
+def qosByName (s : LStr) : QoS :=
+  if s = qosName .lse then .lse else if s = qosName .lsr then .lsr else if s = qosName .ls then .ls
+  else if s = qosName .be then .be else if s = qosName .system then .system else .none
+
+/-- priority.go GetPodPriorityClassByName -/
+def pcByName (s : LStr) : PC :=
+  if s = pcName .prod then .prod else if s = pcName .mid then .mid else if s = pcName .batch then .batch
+  else if s = pcName .free then .free else .none
+
+/-- the label keys the anchored code reads, plus one foreign key (source/target of key mappings):
+    koordinator.sh/qosClass, koordinator.sh/priority-class, c13/src. -/
+inductive LKey | qos | pc | src
+deriving DecidableEq, Repr
+
+def LKey.all : List LKey := [.qos, .pc, .src]
+
+abbrev Labels := LKey → Option LStr
+def Labels.empty : Labels := fun _ => none
+def Labels.set (l : Labels) (k : LKey) (v : LStr) : Labels := fun x => if x = k then some v else l x
 
 /-- priority.go: the eight `Priority*Value{Min,Max}` variables. -/
 structure Ranges where
@@ -62,10 +103,11 @@ def RL.get0 (l : RL) (r : Res) : Int := (l r).getD 0
 
 def nanoPerUnit : Int := 1000000000
 
-/-- Quantity.MilliValue(): rounds up. -/
-def milliValue (q : Int) : Int := (q + 999999) / 1000000
-/-- Quantity.Value(): rounds up. -/
-def unitValue (q : Int) : Int := (q + 999999999) / 1000000000
+/-- Quantity.MilliValue(): rounds up, i.e. away from zero (negative quantities: int64Amount
+    negativeScaleInt64 "rounded away from zero"). -/
+def milliValue (q : Int) : Int := if q ≥ 0 then (q + 999999) / 1000000 else -((-q + 999999) / 1000000)
+/-- Quantity.Value(): rounds away from zero. -/
+def unitValue (q : Int) : Int := if q ≥ 0 then (q + 999999999) / 1000000000 else -((-q + 999999999) / 1000000000)
 /-- resource.NewQuantity(v, DecimalSI) as nano-units. -/
 def newQuantity (v : Int) : Int := v * nanoPerUnit
 
@@ -73,6 +115,8 @@ structure Ctr where
   name : Nat
   req : RL
   lim : RL
+  /-- init containers only: restartPolicy Always (a sidecar) -/
+  sidecar : Bool := false
 
 /-- the batch projection kept in the summary annotation. -/
 structure ExtRL where
@@ -95,10 +139,8 @@ inductive Annot
 deriving DecidableEq, Repr
 
 structure Pod where
-  /-- label koordinator.sh/qosClass: `none` = absent, `some .none` = a string that names no class -/
-  qosLabel : Option QoS
-  /-- label koordinator.sh/priority-class, same encoding -/
-  prioLabel : Option PC
+  /-- metadata.labels restricted to `LKey` (nil map = all absent) -/
+  labels : Labels
   /-- spec.priority -/
   priority : Option Int
   /-- label koordinator.sh/priority (`none` = absent or empty) -/
@@ -109,17 +151,19 @@ structure Pod where
   ctrs : List Ctr
   overhead : Option RL
   annot : Annot
+  /-- spec.resources (pod-level requests, limits); a nil list is the empty list -/
+  podRes : Option (RL × RL) := none
 
 /-! ### class getters -/
 
 /-- qos_utils.go GetPodQoSClassRaw -/
-def qosRaw (p : Pod) : QoS := match p.qosLabel with
-  | some q => q
+def qosRaw (p : Pod) : QoS := match p.labels .qos with
+  | some s => qosByName s
   | none => .none
 
 /-- priority.go GetPodPriorityClassRaw: label first (an unknown name is "none", no fall-through). -/
-def pcRaw (k : Ranges) (p : Pod) : PC := match p.prioLabel with
-  | some c => c
+def pcRaw (k : Ranges) (p : Pod) : PC := match p.labels .pc with
+  | some s => pcByName s
   | none => match p.priority with
     | none => .none
     | some v => getPriorityClassByPriority k v
@@ -129,13 +173,15 @@ def positive (o : Option Int) : Bool := match o with
   | none => false
 
 /-- kubectl qos.ComputePodQOS = BestEffort: no container or init container has a positive
-    cpu/memory request or limit. -/
+    cpu/memory request or limit; when spec.resources is set only the pod-level lists count. -/
 def ctrNoQoSResources (c : Ctr) : Bool :=
   !(positive (c.req .cpu) || positive (c.req .memory) || positive (c.lim .cpu) || positive (c.lim .memory))
 
 def kubeBestEffort (p : Pod) : Bool :=
   if p.statusQoS = 1 then true else if p.statusQoS = 2 then false
-  else (p.ctrs ++ p.inits).all ctrNoQoSResources
+  else match p.podRes with
+    | some (rq, lm) => !(positive (rq .cpu) || positive (rq .memory) || positive (lm .cpu) || positive (lm .memory))
+    | none => (p.ctrs ++ p.inits).all ctrNoQoSResources
 
 /-- qos_utils.go GetPodQoSClassWithDefault followed by priority_utils.go GetPodPriorityClassWithQoS.
     Guaranteed ↦ QoSClassForGuaranteed (LSR) and Burstable ↦ LS both give prod. -/
@@ -156,10 +202,54 @@ def pcWithDefault (k : Ranges) (p : Pod) : PC :=
 def sumReq (cs : List Ctr) (r : Res) : Int := (cs.map (fun c => c.req.get0 r)).sum
 def maxReq (cs : List Ctr) (r : Res) : Int := cs.foldl (fun m c => max m (c.req.get0 r)) 0
 
-/-- component-helpers PodRequests (no sidecars, no pod-level resources): max(Σ containers,
-    max init containers) + overhead. -/
-def podRequest (p : Pod) (r : Res) : Int :=
+/-- the documented formula (no sidecars, no pod-level resources, non-negative quantities):
+    max(Σ containers, max init containers) + overhead; see Props `podRequest_plain`. -/
+def podRequestPlain (p : Pod) (r : Res) : Int :=
   max (sumReq p.ctrs r) (maxReq p.inits r) + (match p.overhead with | some o => o.get0 r | none => 0)
+
+/-- helpers.go addResourceList: `list[name] += q`, a missing entry is created. -/
+def addRL (list new : RL) : RL := fun r => match new r with
+  | none => list r
+  | some q => some ((list r).getD 0 + q)
+
+/-- helpers.go maxResourceList: a missing entry is created (even from a zero or negative quantity). -/
+def maxRL (list new : RL) : RL := fun r => match new r with
+  | none => list r
+  | some q => match list r with
+    | none => some q
+    | some v => if q > v then some q else some v
+
+/-- the init-container loop of AggregateContainerRequests; state = (reqs, restartable, initReqs). -/
+def initStep (st : RL × RL × RL) (c : Ctr) : RL × RL × RL :=
+  let (reqs, restartable, initReqs) := st
+  if c.sidecar then
+    let restartable' := addRL restartable c.req
+    (addRL reqs c.req, restartable', maxRL initReqs restartable')
+  else
+    (reqs, restartable, maxRL initReqs (addRL (addRL RL.empty c.req) restartable))
+
+/-- helpers.go AggregateContainerRequests (default options). -/
+def aggregateRequests (p : Pod) : RL :=
+  let reqs := p.ctrs.foldl (fun acc c => addRL acc c.req) RL.empty
+  let (reqs1, _, initReqs) := p.inits.foldl initStep (reqs, RL.empty, RL.empty)
+  maxRL reqs1 initReqs
+
+/-- helpers.go IsSupportedPodLevelResource restricted to `Res` (no hugepages-* name in `Res`). -/
+def podLevelSupported (r : Res) : Bool := r = .cpu || r = .memory
+
+/-- helpers.go PodRequests(pod, PodResourcesOptions{}): aggregate, pod-level override of cpu/memory
+    (only when spec.resources.requests names a supported resource), then overhead. -/
+def podRequests (p : Pod) : RL :=
+  let agg := aggregateRequests p
+  let lvl : RL := match p.podRes with
+    | some (rq, _) => fun r => if podLevelSupported r then (match rq r with | some q => some q | none => agg r) else agg r
+    | none => agg
+  match p.overhead with
+  | some o => addRL lvl o
+  | none => lvl
+
+/-- `requests[name]` of util.GetPodRequest (a missing entry reads as the zero Quantity). -/
+def podRequest (p : Pod) (r : Res) : Int := (podRequests p).get0 r
 
 inductive Rule
   | immutableQoS | immutablePC | immutablePriority | requiredBE | forbiddenPair (q : QoS) | cpuMissing | cpuNotInteger
@@ -262,17 +352,31 @@ def mutatePodResourceSpecFlag (k : Ranges) (p : Pod) : Bool :=
     (p.inits.any (mutateCtrFlag pc)) || (p.ctrs.any (mutateCtrFlag pc)) ||
     (match p.overhead with | some o => replaceBothFlag pc o | none => false)
 
-/-! ### colocation profiles (only the fields that decide QoS / priority / translation) -/
+/-! ### colocation profiles (the fields that can reach QoS / priority / resources) -/
+
+/-- one entry of a strategic-merge patch on `spec.containers[name=ctr].resources.{requests|limits}` -/
+structure ResPatch where
+  ctr : Nat
+  isLimit : Bool
+  res : Res
+  q : Int
+deriving Repr
 
 structure Profile where
   name : Nat
   matched : Bool            -- namespace/object selectors (trusted) matched
   skipRes : Bool            -- annotation config.koordinator.sh/skip-update-resources present
   prob : Option Int         -- spec.probability as an int percent
-  qos : Option QoS          -- spec.qosClass (non-empty)
-  prioLabel : Option PC     -- spec.labels[koordinator.sh/priority-class]
+  qos : Option LStr         -- spec.qosClass (non-empty)
   priority : Option Int     -- value of the PriorityClass named by spec.priorityClassName
   subPrio : Option Int      -- spec.koordinatorPriority
+  labels : List (LKey × LStr) := []        -- spec.labels (restricted to LKey; a Go map: keys distinct)
+  keyMap : List (LKey × LKey) := []        -- spec.labelKeysMapping old ↦ new (generated: at most one entry)
+  suffixes : List (LKey × LStr) := []      -- spec.labelSuffixes (keys distinct)
+  hasPatch : Bool := false                 -- spec.patch.raw != nil (strategic merge + JSON round trip of the pod)
+  patchLabels : List (LKey × LStr) := []   -- spec.patch: metadata.labels
+  patchPriority : Option Int := none       -- spec.patch: spec.priority
+  patchRes : List ResPatch := []           -- spec.patch: container resources (existing container names)
 deriving Repr
 
 /-- shouldSkipProfile; `rand` is what `randIntnFn(100)` returns. -/
@@ -280,13 +384,45 @@ def shouldSkipProfile (rand : Int) (pr : Profile) : Bool :=
   let percent := pr.prob.getD 100
   percent == 0 || (percent != 100 && rand > percent)
 
-/-- doMutateByColocationProfile restricted to QoS / priority fields. -/
+/-- "overwrite with a constant or keep" -/
+def ovr {α} (o x : Option α) : Option α := match o with | some c => some c | none => x
+
+def setOpt (l : Labels) (k : LKey) (o : Option LStr) : Labels := match o with | some v => l.set k v | none => l
+
+def setLabels (l : Labels) (kvs : List (LKey × LStr)) : Labels := kvs.foldl (fun acc kv => acc.set kv.1 kv.2) l
+
+/-- `pod.Labels[keyNew] = pod.Labels[keyOld]`: a missing source creates the target with "". -/
+def mapKeys (l : Labels) (ms : List (LKey × LKey)) : Labels := ms.foldl (fun acc m => acc.set m.2 ((acc m.1).getD [])) l
+
+/-- `if _, ok := pod.Labels[key]; ok { pod.Labels[key] += suffix }` -/
+def addSuffixes (l : Labels) (ss : List (LKey × LStr)) : Labels :=
+  ss.foldl (fun acc ks => match acc ks.1 with | some v => acc.set ks.1 (v ++ ks.2) | none => acc) l
+
+def patchCtr (rp : ResPatch) (c : Ctr) : Ctr :=
+  if c.name = rp.ctr then (if rp.isLimit then { c with lim := c.lim.set rp.res rp.q } else { c with req := c.req.set rp.res rp.q }) else c
+
+def patchCtrs (cs : List Ctr) (rps : List ResPatch) : List Ctr := rps.foldl (fun acc rp => acc.map (patchCtr rp)) cs
+
+def rlEmpty (l : RL) : Bool := Res.all.all (fun r => (l r).isNone)
+
+/-- the JSON round trip of the patch step drops an empty `overhead` map (omitempty). -/
+def normOv (o : Option RL) : Option RL := match o with
+  | some l => if rlEmpty l then none else some l
+  | none => none
+
+/-- the `profile.Spec.Patch.Raw != nil` block: strategic merge patch restricted to metadata.labels,
+    spec.priority and the resources of existing containers, then `*pod = *newPod`. -/
+def applyPatch (p : Pod) (pr : Profile) : Pod :=
+  { p with labels := setLabels p.labels pr.patchLabels, priority := ovr pr.patchPriority p.priority,
+           ctrs := patchCtrs p.ctrs pr.patchRes, overhead := normOv p.overhead }
+
+/-- doMutateByColocationProfile, in the order of the Go statements: labels, labelKeysMapping,
+    labelSuffixes, qosClass, priorityClassName, koordinatorPriority, patch. -/
 def applyProfile (p : Pod) (pr : Profile) : Pod :=
-  { p with
-    prioLabel := (match pr.prioLabel with | some c => some c | none => p.prioLabel),
-    qosLabel := (match pr.qos with | some q => some q | none => p.qosLabel),
-    priority := (match pr.priority with | some v => some v | none => p.priority),
-    subPrio := (match pr.subPrio with | some v => some v | none => p.subPrio) }
+  let l1 := addSuffixes (mapKeys (setLabels p.labels pr.labels) pr.keyMap) pr.suffixes
+  let p1 := { p with labels := setOpt l1 .qos pr.qos, priority := ovr pr.priority p.priority,
+                     subPrio := ovr pr.subPrio p.subPrio }
+  if pr.hasPatch then applyPatch p1 pr else p1
 
 def insertProfile (pr : Profile) : List Profile → List Profile
   | [] => [pr]
